@@ -29,7 +29,7 @@ CLAIMED = {
    text="Anti-MEV phase order at every site: pre-commit paths and the optional callbacks only with the extension enabled; Commit under anti-MEV only with own PreCommit, M-of-N PreCommit quorum and processed pre-block; ProcessPreBlock once per height (flag discipline); header only after the pre-block; enabling predicate has the stated form.",
    note="Not decided: behaviour with failing callbacks beyond 'flag not set', multi-node recovery interplay. " + A, ref="4/C07"),
  "C08": dict(technique="sibling agreement (cache writer / replayer)",
-   text="Decides only the structural necessary condition A-CACHE: every kind of early payload is kept and replayed on every initialisation and the entered height is removed from the cache.",
+   text="Decides only structural necessary conditions named by the anchors: every kind of early payload is kept (whatever the node's own state) and replayed on every initialisation, the cache is created only by Start and the entered height is removed; the header is built only after the pre-block; mismatching early responses are purged when the proposal is stored; every initialisation arms the timer.",
    note="That all nodes decide in view 0 without timeouts depends on timer values and multi-node schedules: not applicable to static analysis and not claimed. " + A, ref="4/C08"),
  "C10": dict(technique="must-pass-through over enumerated paths with callee summaries, ownership/provenance of the timer epoch",
    text="Inductive argument with static obligations: epoch fields written only by the epoch writer; Timer.Reset only from one wrapper with the current (BlockIndex, ViewNumber); every initialiser path arms after the epoch write; every admitted timeout path re-arms; durations are non-negative by construction where measured quantities are subtracted.",
@@ -52,7 +52,7 @@ CLAIMED = {
    note="Every timing clause (minimum spacing of proposals, 'only once the maximum elapsed', promptness) depends on numeric relations between durations, RTT and the clock: not applicable and not claimed. " + A, ref="4/C16"),
 
  "C17": dict(technique="client typestate / provenance rules on the example program",
-   text="The simulation's event loop re-initialises the library after a processed block (from the loop, under a block-processed condition, not from inside the ProcessBlock callback); ledger callbacks return what ProcessBlock stores; OnTimeout gets the timer's own epoch; the timer channel is re-read each iteration; every required option is supplied; the reference block/payload constructors receive the context fields in their roles.",
+   text="The simulation's event loop re-initialises the library after a processed block (from the loop, under a block-processed condition, not from inside the ProcessBlock callback); ledger callbacks return what ProcessBlock stores; OnTimeout gets the timer's own epoch; the timer channel is re-read each iteration; every required option is supplied; the reference block/payload constructors receive the context fields in their roles; plus the library/timer preconditions its liveness relies on (per-view state dropped on every view change, immediate-expiry channel drained before a send, timeouts and initialisations re-arm).",
    note="Goroutine schedules, block interval and agreement between simulated nodes are run-time behaviour of a concurrent program: not applicable and not claimed. " + A, ref="4/C17"),
  "C18": dict(technique="path enumeration with symbolic field values on package timer (provenance, must-pass-through, affine form)",
    text="Structural clauses of the bundled timer: Height()/View() report what Reset stored from its parameters; Reset stores start, duration, height, view on every path; C() selects the channel by whether a runtime timer is armed; sends on the immediate channel are drained first and only for a zero duration; Extend accumulates unconditionally, re-arms for total-elapsed from the stored start under total>elapsed and never leaves a pending expiry disarmed; NewTimer only after stop.",
